@@ -497,7 +497,7 @@ def handle (sd : Side) (op : List String) (impl : List String) : Handled :=
 /-- Parse the observation of a crash / power-loss image:
 `ok <next> <n> msgs… views=… again=… append=…`. -/
 def isFlagTok (t : String) : Bool :=
-  t.startsWith "views=" || t.startsWith "again=" || t.startsWith "append=" || t.startsWith "retry="
+  t.startsWith "views=" || t.startsWith "again=" || t.startsWith "append=" || t.startsWith "retry=" || t.startsWith "mig="
 
 /-- The interrupted Open retried on the image: it may fail to open (a torn image without
 Recover), otherwise the directory passes Check and its logs hold the same content. -/
@@ -538,7 +538,11 @@ def judgeCrash (pre post : Spec) (op : List String) (impl : List String) : List 
     (if views = "ok" then [] else ["CrashViews"]) ++
     (if again = "same" then [] else ["CrashRecoverAgain"]) ++
     (if app = "ok" then [] else ["CrashAppend"]) ++
-    (if retryOK impl then [] else ["CrashRetry"])
+    (if retryOK impl then [] else ["CrashRetry"]) ++
+    -- Recover together with eager migration to the other format: same content
+    (match impl.find? (·.startsWith "mig=") with
+     | some t => if (t.drop 4).toString == "same" then [] else ["CrashMigrate"]
+     | none => [])
 
 /-- C06: after losing unsynced data, everything below the acknowledged offset survives, the
 survivors are a prefix of what was acknowledged, NextOffset is at least that offset. -/
@@ -834,6 +838,8 @@ def processLine (st : DState) (raw : String) : DState :=
                { st with bs := { st.bs with published := msg :: st.bs.published, total := if nx > st.bs.total then nx else st.bs.total },
                          out := out, viols := st.viols + vs.length, counts := bump st.counts "bs.pub" }
              | none => { st with out := st.out.push s!"BADLINE {st.line} {line}" })
+          | ["bs.pub"], ["err", "hang"] =>
+            { st with viols := st.viols + 1, out := st.out.push s!"VIOL {st.line} Terminates {lhs} impl=err hang (a Publish that never returns)" }
           | "bs.settled" :: _, "ok" :: toks => { st with bs := { st.bs with settled := toks }, counts := bump st.counts "bs.settled" }
           | "bs.ret" :: i :: kind :: opts, _ =>
             let vs := DBlock.judgeRet st.bs (i.toNat?.getD 0) kind (optInt opts "off" 0) (optInt opts "max" 0) (optBool opts "canc")
@@ -856,6 +862,7 @@ def processLine (st : DState) (raw : String) : DState :=
           | ["bl.wrap"] => { st with bl := DBlock.start st.main.spec.next, blPre := none }
           | "bl.wait" :: _ :: lhsT => { st with bl := DBlock.wait st.bl lhsT }
           | ["bl.cancel", i] => { st with bl := DBlock.cancel st.bl (i.toNat?.getD 0) }
+          | ["bl.quiet", _] => { st with bl := { st.bl with lastEv := "other" } }   -- nothing happened for a long while: nobody may wake
           | "bl.ret" :: i :: lhsT =>
             let iN := i.toNat?.getD 0
             let w : DBlock.Waiter := (st.bl.waiters[iN]?).getD default
